@@ -231,7 +231,11 @@ func (t *TcpConn) readPump() {
 			return
 		}
 		t.verifPoint("reader.frame")
-		t.inbound <- pkt // 如果channel满了，这里会阻塞
+		select {
+		case t.inbound <- pkt: // 如果channel满了，这里会阻塞
+		case <-t.done:
+			return
+		}
 		t.verifPoint("reader.delivered")
 
 		// test if we should exit
